@@ -3,6 +3,7 @@ package engine
 import (
 	"fmt"
 	"go/types"
+	"math"
 
 	"golang.org/x/tools/go/ssa"
 
@@ -61,6 +62,16 @@ func (e *OpEngine) RunTensorEntryChecks(maxLen int) {
 			return []interp.Value{d, interp.FloatV{E: sym.SymE("mu")}, interp.FloatV{E: sym.SymE("sigma")}}
 		}, true},
 		{"Eye", func(e *OpEngine, d interp.Value) []interp.Value { return []interp.Value{intV(sym.PAtom("n"))} }, false},
+		// NaN parameters are never ordered: they must be rejected like any other invalid parameter
+		{"RandU", func(e *OpEngine, d interp.Value) []interp.Value {
+			return []interp.Value{d, interp.FloatC(math.NaN()), interp.FloatV{E: sym.SymE("hi")}}
+		}, true},
+		{"RandU", func(e *OpEngine, d interp.Value) []interp.Value {
+			return []interp.Value{d, interp.FloatV{E: sym.SymE("lo")}, interp.FloatC(math.NaN())}
+		}, true},
+		{"RandN", func(e *OpEngine, d interp.Value) []interp.Value {
+			return []interp.Value{d, interp.FloatV{E: sym.SymE("mu")}, interp.FloatC(math.NaN())}
+		}, true},
 	}
 	for _, en := range entries {
 		fn := e.fn(core.PkgTensor, en.name)
